@@ -58,6 +58,27 @@ fn lexicase_replay() {
         a.dedup();
         a
     };
+    if std::env::var("LEX_TWICE").map(|s| s == "1").unwrap_or(false) {
+        // hidden state: the SECOND call on one operator value must equal the second call of a fresh operator value when
+        // both histories start from equal generator states
+        let pop: Vec<EcIndividual<usize, TestResults<Score<i64>>>> = r.iter().enumerate().map(|(i, row)| EcIndividual::new(i, row.iter().copied().into())).collect();
+        let mut differ = 0;
+        for seed in 0..400u64 {
+            let op = Lexicase::new(m);
+            let mut ra = StdRng::seed_from_u64(seed);
+            let _ = op.select(&pop, &mut ra).unwrap();
+            let a2 = *op.select(&pop, &mut ra).unwrap().genome();
+            let mut rb = StdRng::seed_from_u64(seed);
+            let _ = Lexicase::new(m).select(&pop, &mut rb).unwrap();
+            let b2 = *Lexicase::new(m).select(&pop, &mut rb).unwrap().genome();
+            if a2 != b2 {
+                differ += 1;
+            }
+        }
+        println!("second call on a reused operator differs from a fresh operator in {differ} of 400 seeded histories");
+        assert!(differ == 0, "lexicase keeps state between calls: {differ} of 400 seeded histories differ");
+        return;
+    }
     let mut seen: Vec<usize> = Vec::new();
     for seed in 0..3000u64 {
         let mut rng = StdRng::seed_from_u64(seed);
